@@ -5,6 +5,7 @@ package hessian
 import (
 	"math"
 	"reflect"
+	"time"
 )
 
 // Reference renderings of one abstract value in every form the Hessian 2.0 grammar allows (written from the
@@ -173,7 +174,7 @@ func H_C03_chunks() {
 // H_C03_lists: fixed / variable length, typed / untyped, direct-length forms; type name literal or by
 // back-reference to an earlier list of the same stream.
 func H_C03_lists() {
-	n := vChoice("n", 4)
+	n := vChoice("n", 7) // variable-length lists grow as they are read: lengths around the growth steps matter
 	xs := make([]int32, n)
 	var elems []byte
 	for i := range xs {
@@ -195,13 +196,13 @@ func H_C03_lists() {
 	case 1:
 		one = refCat([]byte{'V'}, typ, refInt(int32(n)), elems)
 	case 2:
-		one = refCat([]byte{byte(0x70 + n)}, typ, elems)
+		one = refCat([]byte{byte(0x70 + n)}, typ, elems) // direct length 0..7
 	case 3:
 		one, typed = refCat([]byte{0x57}, elems, []byte{'Z'}), false
 	case 4:
 		one, typed = refCat([]byte{0x58}, refInt(int32(n)), elems), false
 	case 5:
-		one, typed = refCat([]byte{byte(0x78 + n)}, elems), false
+		one, typed = refCat([]byte{byte(0x78 + n)}, elems), false // direct length 0..7
 	}
 	got, err := ToObject(one, tm)
 	vAssert("alt-decodes", err == nil)
@@ -278,4 +279,56 @@ func H_C03_objects() {
 	}
 	vAssert("object", g != nil)
 	vAssert("fields", vAnd(g.A == a, vAnd(g.B == "bb", g.C == c)))
+}
+
+type ZListFields struct {
+	Ps []*ZInner
+	Ts []time.Time
+	Ss []string
+	Z  int32
+}
+
+// H_C03_list_fields: a struct whose slice fields arrive as untyped or variable-length lists (legal renderings a
+// peer may choose), with null elements between non-null ones: nulls stay nil / zero, the others keep their place.
+func H_C03_list_fields() {
+	tm, _ := vExtractAll(&ZListFields{})
+	x := vInt32("x")
+	t1 := refCat([]byte{0x4a}, refLong(1500000000123)[1:])
+	inner := func(n int32, idx int) []byte {
+		if idx == 0 {
+			return refCat(refClassDef("ZInner", []string{"n", "s"}), []byte{0x61}, refInt(n), refStr("s"))
+		}
+		return refCat([]byte{0x61}, refInt(n), refStr("s"))
+	}
+	form := vChoice("form", 4)
+	wrap := func(items [][]byte) []byte {
+		var body []byte
+		for _, it := range items {
+			body = append(body, it...)
+		}
+		switch form {
+		case 0:
+			return refCat([]byte{0x58}, refInt(int32(len(items))), body)
+		case 1:
+			return refCat([]byte{0x57}, body, []byte{'Z'})
+		case 2:
+			return refCat([]byte{byte(0x78 + len(items))}, body)
+		default:
+			return refCat([]byte{0x57}, body, []byte{'Z'})
+		}
+	}
+	nul := []byte{'N'}
+	ps := wrap([][]byte{inner(x, 0), nul, inner(7, 1)})
+	ts := wrap([][]byte{t1, nul, t1, nul})
+	ss := wrap([][]byte{refStr("a"), nul, refStr("c")})
+	wire := refCat(refClassDef("ZListFields", []string{"ps", "ts", "ss", "z"}), []byte{0x60}, ps, ts, ss, refInt(9))
+	out, err := ToObject(wire, tm)
+	vAssert("alt-decodes", err == nil)
+	g, ok := out.(*ZListFields)
+	vAssert("type", ok && g.Z == 9)
+	vAssert("ps", len(g.Ps) == 3 && g.Ps[0] != nil && g.Ps[1] == nil && g.Ps[2] != nil)
+	vAssert("ps-values", vAnd(g.Ps[0].N == x, g.Ps[2].N == 7))
+	vAssert("ts", len(g.Ts) == 4 && !g.Ts[0].IsZero() && g.Ts[1].IsZero() && !g.Ts[2].IsZero() && g.Ts[3].IsZero())
+	vAssert("ts-values", g.Ts[0].Unix() == 1500000000 && g.Ts[2].Unix() == 1500000000)
+	vAssert("ss", len(g.Ss) == 3 && g.Ss[0] == "a" && g.Ss[1] == "" && g.Ss[2] == "c")
 }
